@@ -78,6 +78,14 @@ class MinimizerIMinuit(MinimizerBase):
         self._fmin_struct = deepcopy(self._save_state_dict["fmin_struct"])
         self._minimizer_param_dict = self._save_state_dict["minimizer_param_dict"]
         self.__iminuit = self._save_state_dict["iminuit"]
+        if not _IMINUIT_1 and self.__iminuit is not None:
+            # the backend object may have been moved since the state was saved: put it back to the saved point as well
+            if self._par_val is not None:
+                self.__iminuit.values = self._par_val
+            if self._par_err is not None:
+                for _i, _pe in enumerate(self._par_err):
+                    if _pe > 0.0:
+                        self.__iminuit.errors[_i] = _pe
         self._func_handle(*self.parameter_values)  # call the function to propagate the changes to the nexus
         super(MinimizerIMinuit, self)._load_state()
 
